@@ -15,7 +15,7 @@ from vlib import CheckRun, MachineryError, SPEC, run_tlc, tlc_expect_ok, Vh
 
 LEVEL = "model_checking"
 SD = SPEC / "kbd"
-PROPERTY_CLAUSES = {"KilSound", "KilComplete", "EventOrder", "Cadence", "ReleaseFollows", "FifoBounded", "DropsOldestOnly", "KeyiGated"}
+PROPERTY_CLAUSES = {"KilSound", "KilComplete", "EventOrder", "Cadence", "ReleaseFollows", "ReleaseJustified", "FifoBounded", "DropsOldestOnly", "KeyiGated"}
 PALETTE = [0, 1, 8, 9, 27, 80]   # matrix codes (column * 8 + row)
 
 CONFIGS = {
@@ -25,6 +25,8 @@ CONFIGS = {
     "py-default-high": ("py", 6, 6, 24, 6, 7, True),
     "rs-press2-high": ("rs", 2, 6, 24, 6, 8, True),
     "rs-default-low": ("rs", 6, 6, 24, 6, 8, False),
+    # key repeat switched off (what the pce500 CLI does for scripted key sequences): interval 0 = no repeats in the model
+    "rs-norepeat-high": ("rs", 2, 6, 24, 0, 8, True),
 }
 
 
@@ -95,7 +97,7 @@ class RsKbd:
         names = _names()
         self.keys = [[c, names[c]] for c in PALETTE]
         self.kb_irq = kb_irq
-        vh.call("kbd.new", press_th=p, active_high=high, kb_irq=kb_irq, keys=self.keys)
+        vh.call("kbd.new", press_th=p, active_high=high, kb_irq=kb_irq, repeat=(_i != 0), keys=self.keys)
         self.pf: List[int] = []
 
     def _proj(self, r, events):
@@ -207,7 +209,7 @@ def campaign(cr: CheckRun, cfgname: str, items, tag: str) -> None:
 def _shape(clause: str, acts, line: int) -> str:
     """Structural class of a violation for known-finding matching: event-clause failures that occur after a
     physical Release in the same trace are one class (the Rust matrix emits no release event)."""
-    if clause in ("ReleaseFollows", "Cadence", "EventOrder") and any(a["ev"] == "Release" for a in acts[: max(0, line - 3)]):
+    if clause in ("ReleaseFollows", "Cadence", "EventOrder", "ReleaseJustified") and any(a["ev"] == "Release" for a in acts[: max(0, line - 3)]):
         return "after-physical-release"
     return "general"
 
@@ -269,6 +271,31 @@ def random_acts(seed: int, n: int, length: int, high: bool, slow: bool) -> List[
     return out
 
 
+def flicker_acts(seed: int, n: int, high: bool) -> List[List[Dict[str, Any]]]:
+    """a key stays physically held while its column is de-strobed in short, separate gaps (firmware scanning other columns)"""
+    rnd = random.Random(seed)
+    out = []
+    for _ in range(n):
+        k = rnd.choice(PALETTE)
+        c = k >> 3
+        reg = "WriteKOL" if c < 8 else "WriteKOH"
+        col = 1 << (c if c < 8 else c - 8)
+        full = 0xFF if c < 8 else 0x0F
+        on = col if high else (~col & full)
+        off = 0 if high else full
+        acts = [{"ev": reg, "v": on}, {"ev": "Press", "k": k}] + [{"ev": "Tick"}] * rnd.randint(3, 8)
+        for _g in range(rnd.randint(3, 9)):
+            acts.append({"ev": reg, "v": off})
+            acts += [{"ev": "Tick"}] * rnd.randint(1, 3)
+            acts.append({"ev": reg, "v": on})
+            acts += [{"ev": "Tick"}] * rnd.randint(1, 4)
+        if rnd.random() < 0.5:
+            acts.append({"ev": "Release", "k": k})
+            acts += [{"ev": "Tick"}] * 8
+        out.append(acts)
+    return out
+
+
 def run(cr: CheckRun) -> None:
     vlib.setup_repo_imports()
     vlib.build_vh()
@@ -310,6 +337,8 @@ def run(cr: CheckRun) -> None:
     for cfgname, (impl, p, r, d, i, cap, high) in CONFIGS.items():
         slow = d >= 24
         campaign(cr, cfgname, random_acts(cr.seed + len(cfgname), n, 40 if not slow else 60, high, slow), "random")
+    for cfgname in ("rs-norepeat-high", "rs-press2-high", "py-small-high"):
+        campaign(cr, cfgname, flicker_acts(cr.seed + 77, 60 if quick else 800, CONFIGS[cfgname][6]), "flicker")
     cr.mark("random")
     cr.cov["distinct_nontrivial"] = len({json.dumps(b, sort_keys=True) for b in items + sitems + ritems}) + n * len(CONFIGS)
     cr.cov["rule"] = "distinct input histories (press/release/strobe/tick/read/inject/consume) executed on the real keyboard objects"
